@@ -165,3 +165,70 @@ Example C16_ex_partial :
               (gen_out o0 [ULit (bs "<b>\""x\"""); UExpr SText (bs "s"); ULit (bs "</b>")]) = false /\
   lits_ok [ULit (bs "<b>\""x\"""); UExpr SText (bs "s"); ULit (bs "</b>")] = true.
 Proof. repeat split; vm_compute; reflexivity. Qed.
+
+(* ---------- the literals of the WHOLE generator model (model/Gen.v: generate = generator.Generate, tied to the
+   real generator byte for byte by the C02/C07 harness) ---------- *)
+From V Require Import model.Ast model.Gen proofs.RangeWriterProof proofs.GenAddsProof proofs.GenLitProof.
+
+(* For every file name and EVERY template file: the literal counter ends at the number of literals handed to the
+   text file, no literal is left pending, and the generated Go text is
+       gap_1 ++ WriteString-call(1, literal_1) ++ gap_2 ++ WriteString-call(2, literal_2) ++ ... ++ tail
+   in emission order: the i-th call carries index i and the i-th literal - what the watch-mode text file relies on. *)
+Theorem C16_literal_indices : forall (fn : bytes) (f : file),
+  Gen.index (Gen.w (gen_state fn f)) = length (snd (Gen.generate fn f)) /\
+  Gen.inlit (Gen.w (gen_state fn f)) = false /\
+  exists (segs : list (bytes * nat * bytes)) (tail : bytes),
+    fst (Gen.generate fn f) = calls_text 0 segs ++ tail /\ map snd segs = snd (Gen.generate fn f).
+Proof. exact literal_indices. Qed.
+Print Assumptions C16_literal_indices.
+
+(* the writer: the counter and the literal list change in closeLiteral only - by one, recording the pending
+   literal and writing the call line with the new index; Write/WriteIndent text and WriteStringLiteral keep them *)
+Theorem C16_writer_literal_steps :
+  (forall (lvl : nat) (w : Gen.rw),
+     Gen.index (Gen.close_literal lvl w) = S (Gen.index w) /\
+     Gen.lits (Gen.close_literal lvl w) = concat (rev (Gen.builder w)) :: Gen.lits w /\
+     outtext (Gen.close_literal lvl w) = outtext w ++ ws_line lvl (S (Gen.index w)) (concat (rev (Gen.builder w))) ++ Gen.err_handler_text lvl) /\
+  (forall (s : bytes) (w : Gen.rw), Gen.index (Gen.raw s w) = Gen.index w /\ Gen.lits (Gen.raw s w) = Gen.lits w) /\
+  (forall (s : bytes) (w : Gen.rw), Gen.index (Gen.wl_ s w) = Gen.index w /\ Gen.lits (Gen.wl_ s w) = Gen.lits w /\ Gen.out (Gen.wl_ s w) = Gen.out w).
+Proof. exact writer_literal_steps. Qed.
+Print Assumptions C16_writer_literal_steps.
+
+(* For every file whose element and attribute names are plain after html.EscapeString (the parser admits only
+   ASCII letters, digits and - . : _ @ * in names): every literal is a concatenation of pieces, each of which is
+   escapeQuotes (Gen.qesc) of some bytes, plain ASCII text without double quote, backslash and LF, or the two bytes
+   backslash double-quote.  Hence it scans as one Go string literal and holds no raw LF (one line of the text file). *)
+Theorem C16_literals_are_quoted : forall (fn : bytes) (f : file), file_named pl any_bytes f ->
+  Forall (fun lit : bytes => (exists ps : list piece, forallb piece_ok ps = true /\ lit = glit_text ps) /\
+                             scan_ok lit = true /\ no_byte x0a lit = true) (snd (Gen.generate fn f)).
+Proof.
+  exact (fun fn f H => Forall_impl _ (fun a Ha => conj Ha (built_scan_ok a Ha)) (literals_are_quoted fn f H)).
+Qed.
+Print Assumptions C16_literals_are_quoted.
+
+(* Gen.qesc (non-ASCII bytes pass through) and strconv.Quote (model/Quote.v, parametric in IsPrint) agree on valid
+   UTF-8 whose non-ASCII runes are printable - in particular on ASCII text - for every oracle that is right on ASCII *)
+Theorem C16_qesc_is_quote : forall (is_print : N -> bool), ascii_print_ok is_print ->
+  (forall s : bytes, printable is_print s = true -> quote is_print s = Gen.qesc s) /\
+  (forall s : bytes, ascii s = true -> quote is_print s = Gen.qesc s).
+Proof. exact (fun ip H => conj (qesc_quote ip H) (qesc_quote_ascii ip H)). Qed.
+Print Assumptions C16_qesc_is_quote.
+
+(* ... so for files with plain names and printable static text every generator literal is a literal of
+   C16_literal_roundtrip: it reads back through strconv.Unquote as the bytes the author wrote *)
+Theorem C16_generated_literals_roundtrip : forall (is_print : N -> bool), ascii_print_ok is_print -> is_print 10 = false ->
+  forall (fn : bytes) (f : file), file_named pl (printable is_print) f ->
+  Forall (fun lit : bytes => exists ps : list piece, forallb piece_ok ps = true /\ lit = lit_text is_print ps /\
+                             unquote lit = Some (lit_value ps) /\ scan_ok lit = true) (snd (Gen.generate fn f)).
+Proof. exact (fun ip H1 H2 fn f H => generated_literals_roundtrip ip H1 fn f H2 H). Qed.
+Print Assumptions C16_generated_literals_roundtrip.
+
+(* non-vacuity: Go's own table is right on ASCII; a file with a constant attribute holding a quote and a backslash,
+   a URL attribute, text with a quote and a newline, and a string expression: its three literals *)
+Example C16_ex_go_oracle : ascii_print_ok go_is_print /\ go_is_print 10 = false.
+Proof. split; [exact go_ascii_print_ok|vm_compute; reflexivity]. Qed.
+Example C16_ex_generated_literals :
+  file_named pl (printable go_is_print) lit_file /\
+  snd (Gen.generate (bs "t.templ") lit_file) = [bs "<a title=\""x\\&#34;y\"" href=\"""; bs "\"">a\""b\n"; bs "</a>"] /\
+  Gen.index (Gen.w (gen_state (bs "t.templ") lit_file)) = 3%nat.
+Proof. split; [exact lit_file_named|split; vm_compute; reflexivity]. Qed.
